@@ -47,7 +47,13 @@ impl Check for IrsCheck {
     type Cfg = Cfg;
     type Step = Step;
     fn id(&self) -> &'static str { "irs" }
-    fn runs(&self, tier: Tier) -> u64 { if tier == Tier::Quick { 500 } else { 30_000 } }
+    fn runs(&self, tier: Tier) -> u64 {
+        if tier == Tier::Quick {
+            4000
+        } else {
+            100000
+        }
+    }
     fn components(&self) -> serde_json::Value { serde_json::json!({"real": ["rwa::identity_registry_storage::* behind a wrapper"], "stub": []}) }
     fn generate(&self, rng: &mut Rng, tier: Tier) -> (Cfg, std::vec::Vec<Step>) {
         let cfg = Cfg { accounts: 4 + rng.below(3) as usize };
